@@ -213,7 +213,7 @@ class Engine:
                         self.explore("VALNM", ch, call, 1 if (si + ci) % 3 == 0 else 0)
         # P4: other node classes (Node, AnyNode, symlink mixes, value-equality and falsy classes)
         if not self.lockstep:
-            for fam in ("Node", "AnyNode", "MIX", "VALNM", "VALLM", "FALSY"):
+            for fam in ("Node", "AnyNode", "MIX", "VALNM", "VALLM", "FALSY", "FALSYLM"):
                 for k in (2, 3) + ((4,) if T else ()):
                     calls = list(F.all_calls(k, fam, itkinds=("list",)))
                     stride = 1 if (k < 4) else 6
@@ -224,8 +224,74 @@ class Engine:
                             if (si + ci) % stride:
                                 continue
                             self.explore(fam, ch, call, 1 if (T or (si + ci) % 3 == 0) else 0)
-        # P5: long random histories
+        # P5: exhaustive short histories (state carried from call to call on the same objects)
+        self.short_histories()
+        # P6: long random histories
         self.histories()
+
+    def short_histories(self):
+        """Every sequence of three parent assignments on every forest over 3 nodes (and a stride of the
+        two-call sequences of all calls): what a call leaves behind in the objects matters to the next."""
+        ctx = self.ctx
+        F = self.F
+        fams = ("NM",) if self.lockstep else ("NM", "LM", "FALSY", "FALSYLM")
+        k = 3
+        U = list(range(k))
+        sp = [("setparent", n, p) for n in U for p in [None] + U]
+        allc = list(F.all_calls(k, "LM", itkinds=("list",)))
+        for fam in fams:
+            seqs = []
+            for a in sp:
+                for b in sp:
+                    for c in sp:
+                        seqs.append((a, b, c))
+            stride = 1 if (self.thorough or fam in ("NM", "LM")) else 4
+            for si, ch in enumerate(gen.ordered_forests(k)):
+                for qi, seq in enumerate(seqs):
+                    if not self.mine():
+                        continue
+                    if (si + qi) % stride:
+                        continue
+                    self.run_history(fam, ch, [(c, ("none",)) for c in seq])
+                for qi, (a, b) in enumerate((a, b) for a in allc for b in allc):
+                    if not self.mine():
+                        continue
+                    if (si * 31 + qi) % (7 if self.thorough else 29):
+                        continue
+                    self.run_history(fam, ch, [(a, ("none",)), (b, ("none",))])
+            ctx.exhaustive.append("family %s: all %d three-call sequences of parent assignments on all 19 forests over 3 nodes%s" % (fam, len(seqs), "" if stride == 1 else " (every 4th)"))
+
+    def run_history(self, fam, ch0, steps):
+        ctx = self.ctx
+        F = self.F
+        if self.lockstep:
+            recs = [F.Rec(F.materialise("NM", ch0)), F.Rec(F.materialise("LM", ch0))]
+            fms = ("NM", "LM")
+        else:
+            recs = [F.Rec(F.materialise(fam, ch0))]
+            fms = (fam,)
+        hist = []
+        for call, planspec in steps:
+            hist.append([F._jsonable(call), F._jsonable(planspec)])
+            case = {"family": fam, "state": [list(c) for c in ch0], "history": hist}
+            with ctx.guard(case):
+                exs = [F.run_call(r, fm, call, F.Plan(planspec)) for r, fm in zip(recs, fms)]
+                ex = exs[0]
+                self.observe(ex, ("shist", fam, ctx.assertions, ch0, repr(hist)))
+                ctx.count("short_history_steps")
+                nv = ctx.counters["violations"]
+                ctx.case_extra = {"history_prefix": (lambda h=hist: [list(x) for x in h[:-1]]), "history_state": case["state"], "history_family": fam}
+                try:
+                    if self.lockstep:
+                        F.mon_c18(ctx, exs[0], exs[1])
+                    else:
+                        self.apply(ex)
+                finally:
+                    ctx.case_extra = None
+                if M.invariant(ex.post) or ctx.counters["violations"] != nv:
+                    return
+                continue
+            return
 
     # -------------------------------------------------------------- histories
     def random_call(self, rng, k, par, fam):
@@ -265,7 +331,7 @@ class Engine:
         T = self.thorough
         total = 6000 if T else 480
         per = max(1, total // ctx.nshards)
-        fams = ("NM",) if self.lockstep else ("NM", "LM", "MIX", "Node", "AnyNode", "VALNM", "VALLM", "FALSY")
+        fams = ("NM",) if self.lockstep else ("NM", "LM", "MIX", "Node", "AnyNode", "VALNM", "VALLM", "FALSY", "FALSYLM")
         for h in range(per):
             rng = ctx.rng("hist", h)
             fam = fams[h % len(fams)] if h % 3 else fams[h % 2 % len(fams)]
